@@ -130,7 +130,13 @@ async fn serve(mut s: TcpStream, id: usize, sh: Sh, kill: Arc<Notify>) {
                         w.conns[id].watch = false;
                         w.log.push(vec![id as i64, 1]);
                         if std::mem::take(&mut w.conns[id].arm_unwatch) {
-                            Some("-ERR scripted failure\r\n".into())
+                            // two wordings of the error: a failure / what a server or proxy without the
+                            // command answers - an error reply is an error reply
+                            if (w.log.len() + id) % 2 == 0 {
+                                Some("-ERR scripted failure\r\n".into())
+                            } else {
+                                Some("-ERR unknown command 'UNWATCH', with args beginning with: \r\n".into())
+                            }
                         } else {
                             Some("+OK\r\n".into())
                         }
